@@ -12,8 +12,10 @@ SUITES = {
     "_overlay": {
         "packets1/zz_verif_canon.go": "packets1_canon.go",
         "packets1/zz_verif_drv_test.go": "packets1_drv_test.go",
+        "topics/zz_verif_drv_test.go": "topics_drv_test.go",
     },
     "codec": {"pkg": "./packets1/", "run": "TestVerifCodec$", "driver": "codec", "timeout": "30m"},
+    "topics": {"pkg": "./topics/", "run": "TestVerifTopics$", "driver": "topics", "timeout": "10m"},
 }
 
 
@@ -26,6 +28,8 @@ def _codec_rel(kinds):
 
 PROPS = {
     "C20": {
+        "level_text": 'Lean theorem decode_total (for all byte strings the model of ReadPacket never panics), model tied to the code by differential execution of the real decoder on exhaustive short and structured datagrams; a panic of the real decoder is reported with the datagram as replay',
+        "technique": 'Lean 4 theorem over a hand-written model + differential correspondence',
         "suites": ["codec"],
         # C20 is about crashes only: a disagreement matters iff one side panics
         "relevant": lambda line: line.startswith("DIFF codec") and "PANIC" in line,
@@ -39,6 +43,8 @@ PROPS = {
                        "tie: the real decoder and the model agree on every generated datagram",
     },
     "C21": {
+        "level_text": 'Lean theorems c21_roundtrip / c21_lengthField / c21_form for all Legal packets of all 28 types and c21_short_* for all 16-bit IDs; tie: real Pack/ReadPacket vs model encode/decode on generated packets',
+        "technique": 'Lean 4 theorem over a hand-written model + differential correspondence',
         "suites": ["codec"],
         # C21 speaks about legal packets only: disagreements on illegal ones (e.g. 70000-byte payloads) do not concern it
         "relevant": lambda line: _codec_rel({"E", "E-decode", "S", "N"})(line) and "legal=0" not in line,
@@ -49,6 +55,8 @@ PROPS = {
         "explanation": "theorems c21_roundtrip, c21_lengthField, c21_form, c21_short_name, c21_short_id for ALL Legal packets / all 16-bit IDs",
     },
     "C22": {
+        "level_text": 'Lean theorem c22_fields (decode bs = ok p -> independent positional reader gives p) for all byte strings; the re-encoding half is decided by the Spec.normBody monitor on every datagram the real decoder accepts (theorem for that half pending)',
+        "technique": 'Lean 4 theorem over a hand-written model + differential correspondence + monitor',
         "suites": ["codec"],
         # C22 speaks about datagrams that decode successfully: a disagreement matters iff one side says OK
         "relevant": lambda line: (line.startswith("DIFF codec D") or line.startswith("DIFF codec E-decode"))
@@ -58,5 +66,18 @@ PROPS = {
         "trusted_base": TB_COMMON + ["Spec.refParse / Spec.normBody as the statement of 'specified byte positions' and 'allowed differences'"],
         "assumptions": ["a datagram is at most MaxPacketLen bytes"],
         "explanation": "theorem c22_fields: decode bs = ok p -> refParse bs = some p for ALL byte strings; re-encoding half checked by monitor on the implementation",
+    },
+    "C05": {
+        "level_text": 'Lean theorems c05_name and c05_id_sound/c05_readback for all predefined-topic configurations, client IDs and names; tie: the real PredefinedTopics methods vs the model on all 729 small configurations with every query plus random larger ones',
+        "technique": 'Lean 4 theorem over a hand-written model + differential correspondence',
+        "suites": ["topics"],
+        "relevant": lambda line: line.startswith("DIFF topics name") or line.startswith("DIFF topics id"),
+        "rule": "real PredefinedTopics built by Add sequences: ALL 729 configurations over clients {c1,c2,*} x IDs {1,2} x names {x,y} with every "
+                "GetTopicName/GetTopicID query (each GetTopicID asked 6 times to sample map order), the repo's testdata file, and random larger "
+                "configurations with overwrites; every distinct answer is a line",
+        "trusted_base": TB_COMMON + ["association-list model of Go maps in Bisquitt/Model/Topics.lean (first binding is live)",
+                                     "Spec.specName as the statement of 'client-specific entry, otherwise the * entry'"],
+        "assumptions": ["Go map iteration may return any matching entry: the model returns the set of admissible answers"],
+        "explanation": "theorems c05_name (lookup by ID = client entry else * entry) and c05_id_sound/c05_readback (every admissible GetTopicID answer reads back as the name) for ALL configurations",
     },
 }
